@@ -682,6 +682,28 @@ impl WorldB {
         if let Err((c, d)) = r {
             viols.push(("cw1-subkeys-all-permissions", c, d, false));
         }
+        // listed rows agree with the point queries for the same key
+        for (k, v) in rawkeys::entries(&dump, "allowances").into_iter().take(40) {
+            if let (Ok(sp), Ok(a)) = (String::from_utf8(k), cosmwasm_std::from_json::<cw1_subkeys::state::Allowance>(&v)) {
+                if expired(&a.expires, &block) {
+                    continue;
+                }
+                if let Ok(q) = chain.query::<cw1_subkeys::state::Allowance>("sk", &json!({"allowance":{"spender": sp}})) {
+                    if norm_coins(&q.balance.0) != norm_coins(&a.balance.0) || q.expires != a.expires {
+                        viols.push(("cw1-subkeys-all-allowances", "listed-item-ne-point-query".into(), format!("{}: listed {:?} but Allowance says {:?}", sp, a, q), false));
+                    }
+                }
+            }
+        }
+        for (k, v) in rawkeys::entries(&dump, "permissions").into_iter().take(40) {
+            if let (Ok(sp), Ok(a)) = (String::from_utf8(k), cosmwasm_std::from_json::<cw1_subkeys::state::Permissions>(&v)) {
+                if let Ok(q) = chain.query::<cw1_subkeys::state::Permissions>("sk", &json!({"permissions":{"spender": sp}})) {
+                    if q != a {
+                        viols.push(("cw1-subkeys-all-permissions", "listed-item-ne-point-query".into(), format!("{}: listed {:?} but Permissions says {:?}", sp, a, q), false));
+                    }
+                }
+            }
+        }
         for (l, c, d, h) in viols {
             self.viol(out, "C20", &format!("{}/{}", l, c), json!({"list": l, "expired_entries_present": h}), d);
         }
